@@ -13,7 +13,7 @@ All runs use the quick tier with VERIF_SEED=1 against a scratch worktree of /rep
 
 ## 1. Independently seeded changes (sub-agents that saw only the property text)
 
-Nine rounds (149 changes; rounds 1-6 over all 19 properties, rounds 7-9 over 17, 10 and 7 of them). Round 1 (`seeded/C01` ... `seeded/C19`): one change per property, free choice of mechanism — most agents chose a
+Ten rounds (153 changes; rounds 1-6 over all 19 properties, rounds 7-10 over 17, 10, 7 and 4 of them; round 10 — `seeded/C10-10`, `C15-10`, `C18-10`, `C19-10`, the four properties with the fewest changes so far, authors under a 12-minute limit — was caught completely by the committed checks without any change to them). Round 1 (`seeded/C01` ... `seeded/C19`): one change per property, free choice of mechanism — most agents chose a
 cache or another form of shared state. Round 2 (`seeded/Cxx-2`): a second change per property with the instruction to use
 something else (arithmetic, indexing, ordering, sign handling, boundary conditions, data slips). Round 3 (`seeded/Cxx-3`): a
 third change per property, told which mechanisms had been used before and asked for something different, confined if possible
